@@ -341,6 +341,9 @@ def jacobi_sum_clenshaw(s, alpha, beta, x, alphas=None):
     alphas = _initialize_alphas(s, x, alphas)
     M = len(s) - 1
     alphas[M] = s[M]
+    if M == 0:
+        # a single term: the sum is s_0 P_0 = s_0
+        return alphas[0]
     a, b, c = recurrence_abc(M-1, alpha, beta)
     alphas[M-1] = s[M-1] + (a * x + b) * s[M]
     for n in range(M-2, -1, -1):
@@ -402,8 +405,11 @@ def jacobi_sum_clenshaw_der(s, alpha, beta, x, j=1, alphas=None):
     for jj in range(1, j+1):
         # more twisted notation - follow Forbes' paper, but our
         # idea of b and a are swapped
+        if M - jj < 0:
+            # derivatives of order greater than the degree vanish (alphas is zero-initialised)
+            break
         a, *_ = recurrence_abc(M-jj, alpha, beta)
-        alphas[jj][M-jj] = j * a * alphas[jj-1][M-jj+1]
+        alphas[jj][M-jj] = jj * a * alphas[jj-1][M-jj+1]
         for n in range(M-jj-1, -1, -1):
             a, b, _ = recurrence_abc(n, alpha, beta)
             _, _, c = recurrence_abc(n+1, alpha, beta)
